@@ -97,6 +97,7 @@ def mapping_alignment_rule(repo: Repo, rep, P: str, rule: str):
 
 def run(repo: Repo, rep, tier: str):
     naming(repo, rep, "C15")
+    user_defined_fresh(repo, rep, "C15", "R1")          # the UserDefined objects (value types, labels, attachment) are per MetaModule
     labels_and_project(repo, rep, "C15")
     attachment(repo, rep, "C15")
     shared(repo, rep, "C15")
@@ -351,6 +352,24 @@ def labels_and_project(repo: Repo, rep, P: str):
     nums, _problems = _c02.writer_numbers_for(repo, mm)
     lab = [x for x in nums if x.field == "label"]
     start = lab[0].lo if lab else None
+    # label chunk numbers are positions in self.user_defined (label i ↔ controller i): the enumerate that numbers them must run over
+    # the unfiltered list
+    from ..packed import single_defs as _sd, resolve_names as _rn
+    wdefs = _sd(wf)
+    for lp in [n for n in ast.walk(wf) if isinstance(n, ast.For)]:
+        it = _rn(lp.iter, wdefs)
+        if isinstance(it, ast.Call) and norm(it.func) == "enumerate" and it.args and any(
+                isinstance(y, ast.Yield) and isinstance(y.value, ast.Tuple) and norm(y.value.elts[0]) == "b'CHDT'" and "label" in norm(y.value.elts[1]) for y in ast.walk(lp)):
+            seq = _rn(it.args[0], wdefs)
+            while isinstance(seq, ast.Call) and norm(seq.func) in ("list", "tuple", "iter") and len(seq.args) == 1:
+                seq = seq.args[0]
+            filtered = (isinstance(seq, (ast.ListComp, ast.GeneratorExp)) and any(g_.ifs for g_ in seq.generators)) or \
+                (isinstance(seq, ast.Call) and norm(seq.func) in ("filter", "filterfalse", "itertools.filterfalse", "compress", "itertools.compress"))
+            if filtered:
+                rep.violation(f"{P}.R2", f"{rel}:MetaModule.specialized_iff_chunks", norm(it)[:140],
+                              "label chunks are numbered by the position in a FILTERED list of controllers: after an unlabelled or detached "
+                              "controller every later label is written under an earlier chunk number and is loaded into the wrong controller",
+                              f"{rel}:{lp.lineno}")
     ll = repo.own_method(mm, "load_label")
     ls = norm(ll)
     off = None
